@@ -70,6 +70,7 @@ def expression_corpus():
         "arithmetic": lambda x, y, z: (x + y) * 2 - z / 4 + (-x) + abs(y - z),
         "reflected": lambda x, y, z: (5 - x) + (2 * y) + (7 + z) + 12 / (abs(y) + 1) - (1 - (3 - x)),
         "identity-shortcuts": lambda x, y, z: (x + 0, 0 + x, x - 0, 0 - x, x * 1, 1 * x, x / 1, 0 * y, y * 0),
+        "unit-divisor-and-exponent": lambda x, y, z: (x // 1, y / 1, z ** 1, (x + y) // 1, 1 * (z // 1), x // 1 + y // 1),
         "tuple-list-index": lambda x, y, z: ((x, y, z)[1], [x, y + 1][0], (x, (y, z))[1][1]),
         "slice": lambda x, y, z: (x, y, z, x + y)[1:3],
         "dict-literal": lambda x, y, z: {"k": x + y, "m": z}["k"],
@@ -126,8 +127,20 @@ def h_forest(name, integer):
         g, w = flat(got), flat(want)
         ctx.check("same-shape-as-plain-python", len(g) == len(w) and type(got) == type(want) or (len(g) == len(w) and not isinstance(want, (tuple, list))),
                   got_type=type(got).__name__, want_type=type(want).__name__)
+        def kind(v):
+            from crosshair.libimpl.builtinslib import RealBasedSymbolicFloat, SymbolicInt
+
+            if isinstance(v, bool):
+                return "bool"
+            if isinstance(v, (int, SymbolicInt)):
+                return "int"
+            if isinstance(v, (float, RealBasedSymbolicFloat)):
+                return "float"
+            return type(v).__name__
+
         for i, (a, b) in enumerate(zip(g, w)):
             ctx.check("lifted-expression-equals-plain-python-on-the-samples", a == b, component=i, expression=name)
+            ctx.check("lifted-expression-has-the-type-plain-python-gives", kind(a) == kind(b), component=i, expression=name, got=kind(a), want=kind(b))
 
     return h
 
